@@ -14,43 +14,43 @@ P = {
          "Wall clock read by the code (SystemTime::now) is handled by a same-second guard: boundary cases that straddle a second are inconclusive, never violations.", "DESIGN.md §4 C02"),
  "C03": ("sim", "property-based testing (proptest): generated discovery/filter/strategy verdicts, locales and localisation tables; oracle = list equality along the pipeline, Transfer == chosen target, reference locale fallback chain",
          "Exploration of target lists (IPv4/IPv6, duplicates), filter/strategy outcomes and locale tables; Transfer host/port and Disconnect text are decoded with the independent codec/NBT decoder.",
-         "Localisation tables are complete by construction (partial tables are unspecified).", "DESIGN.md §4 C03"),
+         "Localisation tables are complete by construction (partial tables are unspecified); a share of cases uses the tables passage ships as its default configuration, and a share lets discovery complete while the first Keep Alive is partly written.", "DESIGN.md §4 C03, §10.6"),
  "C04": ("sim+libfuzzer", "property-based testing (proptest, one mutated frame per well-formed transcript) plus coverage-guided fuzzing (cargo-fuzz/libFuzzer) of the raw client byte stream; oracle = no panic, returns after EOF, bounded largest allocation, refused-before-body",
-         "Exploration: structured mutations (length prefixes, truncations, over-long VarInts, bad UTF-8, ordinals, RSA garbage) before and after the encryption switch, with an allocation meter; thorough adds libFuzzer campaigns.",
+         "Exploration: structured mutations (length prefixes, truncations, over-long VarInts, bad UTF-8, ordinals, RSA garbage, secrets and verify tokens of the wrong length, prefix floods, hostile locales through the real localization adapter) before and after the encryption switch, with an allocation meter; a frame that is malformed by construction must not be answered at all; thorough adds libFuzzer campaigns.",
          "Allocation bound 8 x max_packet_length + 256 KiB measured on the handling thread; libFuzzer campaigns are only approximately reproducible from a seed, the saved input is the reproducible unit.", "DESIGN.md §4 C04"),
  "C05": ("pure", "property-based testing (proptest): generated operation sequences on CipherStream over a scripted transport (partial accepts, Pending, tiny reads, mid-stream switch); oracle = independent AES-128-CFB8 built on the raw block function",
-         "Exploration of I/O schedules on the real CipherStream polled by hand; the accepted ciphertext must equal the reference CFB8 encryption of exactly the bytes reported as written, and reads the matching decryption.",
+         "Exploration of I/O schedules on the real CipherStream polled by hand (partial accepts, Pending, Interrupted errors, abandoned writes); the accepted ciphertext must equal the reference CFB8 encryption of exactly the bytes reported as written, and reads the matching decryption; a second family runs the switch inside a real connection with pipelined frames.",
          "Trusted: aes::Aes128::encrypt_block (checked against the NIST SP 800-38A CFB8 vector).", "DESIGN.md §4 C05"),
  "C06": ("sim", "property-based testing (proptest): generated serverbound packet sequences (legal, out of phase, repeated, unknown ids/next-states); oracle = reference protocol state machine predicting the clientbound packet kinds",
-         "Exploration of packet sequences up to depth 12 against a wire-level reference state machine written from the property statement.",
+         "Exploration of packet sequences up to depth 12 (legal, out of phase, repeated, aliased ids, client silence, slow routing with pending writes) against a wire-level reference state machine written from the property statement; plus real-time scenarios with the status service behind the HTTP adapter of a passage child process.",
          "Configuration-phase packets outside the accepted set are unspecified: sequences are only checked up to that point plus global ordering invariants.", "DESIGN.md §4 C06"),
  "C07": ("sim", "property-based testing (proptest) under virtual time: generated adapter latencies x echo policies x Client Information delays; oracle = timed-trace invariants I1-I4 with the 16 s period taken from the property",
-         "Exploration under tokio's paused clock with a seeded select! RNG; invariants over the timed trace of the real Connection.", "Ties (echo or routing completion exactly on a due instant) are not generated.", "DESIGN.md §4 C07"),
+         "Exploration under tokio's paused clock with a seeded select! RNG; invariants over the timed trace of the real Connection; second and third runs with the terminal packet's / a Keep Alive's write pending or partial must give the same packets; timeout messages also from the tables passage ships.", "Ties (echo or routing completion exactly on a due instant) are not generated.", "DESIGN.md §4 C07"),
  "C08": ("sim", "metamorphic property-based testing (proptest): baseline run vs. variants of the same scenario with generated segmentation, write-acceptance patterns and cut points aimed at ticks/adapter completions; oracle = trace equality",
          "Exploration of schedules: each variant must produce the baseline's packets, adapter calls and outcome; cut points are aimed at instants read from the baseline trace.", "Race windows are one timer tick wide and are reached by construction, not by chance.", "DESIGN.md §4 C08"),
  "C09": ("pure+libfuzzer", "property-based testing (proptest) differential against a hand-written reference codec, byte for byte, both directions; exhaustive 2^32 VarInt sweep (thorough); libFuzzer decode round-trip (thorough)",
          "Exploration over all 41 packet types with boundary-dense field values; thorough tier enumerates all 2^32 VarInts exhaustively.", "Reference codec written from the protocol description; text components restricted to the BMP without NUL where UTF-8 and modified UTF-8 coincide.", "DESIGN.md §4 C09"),
  "C10": ("sim", "property-based testing (proptest) over two-connection histories; oracle = independent HMAC-SHA256 + cookie JSON contents + acceptance on the second connection",
-         "Exploration of (identity, properties, target, address, secret, session cookie) histories through two real connections.", "Timestamps are compared with a [now0, now1] window read around the case.", "DESIGN.md §4 C10"),
+         "Exploration of (identity, properties, target, address, secret of 0-200 bytes, session cookie presented or not on either connection) histories through two real connections.", "Timestamps are compared with a [now0, now1] window read around the case.", "DESIGN.md §4 C10"),
  "C11": ("pure", "property-based testing (proptest) differential against an independent SHA-1 (sha1_smol) + hand-written two's-complement hex formatting; reference-mined rare digest classes",
-         "Exploration: 2*10^5 (quick) / 10^7 (thorough) random inputs plus inputs mined with the reference so that digests with >= 3 leading zero / F nibbles are reached.",
+         "Exploration: 2*10^5 (quick) / 5*10^7 (thorough) random inputs plus inputs mined with the reference (leading zero / F nibbles, 16-32 trailing zero bits; 2^33 inputs scanned in the thorough tier), the serverId the real Mojang adapter sends, and whole logins against a passage child process whose server id comes from a configuration file or the environment.",
          "The digests 0x80..00 and 0 are unreachable through the public function (SHA-1 preimage).", "DESIGN.md §4 C11"),
  "C12": ("mock-http", "property-based testing (proptest): generated hostile user names against the real MojangAdapter talking to a loopback HTTP mock (hook H1); oracle = parsed request line (path, parameter names, decoded values) and reference hash",
          "Exploration of claimed names biased to reserved characters; the raw request line captured by the mock is parsed independently.", "Needs hook H1 (base URL override); plain HTTP instead of TLS.", "DESIGN.md §4 C12"),
  "C13": ("pure", "stateful property-based testing (proptest, op sequences + interpreter) under virtual time; oracles = exact-arithmetic reference limiter, model-free admission bounds, per-key projection replay, tracked-keys hook",
          "Exploration of arrival histories (boundary-dense inter-arrival times) against an exact rational model and model-free bounds.", "f32 rounding band around value == limit is 'don't care'; limits <= 200.", "DESIGN.md §4 C13"),
  "C14": ("real-tcp", "property-based testing (proptest) over configurations and client behaviours against passage::start / Listener on loopback; oracle = frame accepted iff <= configured maximum, cookie expiry/secret as configured, close <= timeout",
-         "Exploration on real sockets and real time; bounds generous, misses need a control run.", "Real-time oracles degrade to inconclusive.", "DESIGN.md §4 C14"),
+         "Exploration on real sockets and real time: per case one passage instance (in-process passage::start, or a child process that reads the same settings through Config::read from file / secret file / environment with decoys in the lower layers; with or without a configured secret) and 6-19 concurrent client scenarios (frames around the configured maximum, crafted and router-issued cookies around the configured expiry, other secrets, stalls, misbehaving clients, an unread 24 MiB response at the deadline); bounds generous, misses need a control run.", "Real-time oracles degrade to inconclusive; the server's end of a connection is observed in /proc/net/tcp where the verdict must not depend on socket buffers.", "DESIGN.md §4 C14, §10.4, §10.6"),
  "C15": ("real-tcp", "stateful property-based testing (proptest): generated arrival histories with PROXY v1/v2 headers through several peers; oracle = reference limiter on the effective IP, zero bytes to refused connections, client_addr seen by adapters/cookies",
-         "Exploration of sequential arrival histories on loopback against the C13 reference model.", "Connections are made sequentially so arrival order is defined.", "DESIGN.md §4 C15"),
+         "Exploration of sequential arrival histories on loopback against a reference limiter (Listener built by the harness, or a passage child process configured through the layers), then a burst of simultaneous connections from one fresh address and a retry of an exhausted address after a pause.", "Connections of the history are made sequentially so arrival order is defined; in the burst only the number served is judged.", "DESIGN.md §4 C15, §10.6"),
  "C16": ("real-tcp", "property-based testing (proptest) with injected stalls: generated sets of stalling clients and stall points; oracle = bounded service time of a well-behaved client with control re-runs",
-         "Exploration of stall placements on real sockets; bounded-time safety, not liveness.", "A miss is a violation only if it reproduces and the control run is fast.", "DESIGN.md §4 C16"),
+         "Exploration of stall placements on real sockets (stalls at every stage, floods, an address over its limit, resets before accept), crowds arriving while the limiter's clean-up is due, and the cost of admission against millions of recently seen addresses; bounded-time safety, not liveness.", "A miss is a violation only if it reproduces and the control run is fast.", "DESIGN.md §4 C16, §10.6"),
  "C17": ("real-tcp", "property-based testing (proptest) over cancel instants relative to in-flight progress; oracle = in-flight clients complete, late clients get no byte, listen returns after the last one",
-         "Exploration of shutdown moments with explicit synchronisation on received packets.", "Kernel/tokio multi-thread scheduling is not owned by the harness.", "DESIGN.md §4 C17"),
+         "Exploration of shutdown moments with explicit synchronisation on received packets; late clients are pre-spawned and connect within microseconds of cancel(); a share of cases stops the whole application (child process) with SIGINT while clients are in flight.", "Kernel/tokio multi-thread scheduling is not owned by the harness.", "DESIGN.md §4 C17, §10.6"),
  "C18": ("pure", "property-based testing (proptest): generated filter-chain and strategy configurations (through the crate's own Deserialize + from_config) x target lists x players; oracle = independent reference evaluator / validity predicate",
          "Exploration of configurations and target lists against a reference eligibility evaluator.", "Regex semantics are the regex crate's in both implementation and reference.", "DESIGN.md §4 C18"),
  "C19": ("mock-grpc", "property-based testing (proptest): generated targets/addresses/metadata through a loopback tonic mock of Discovery and Strategy; oracle = field-by-field equality, malformed replies must be Err",
-         "Exploration of address forms (IPv4/IPv6 textual variants), ports, metadata, malformed replies.", "Server stubs generated from the repository's own .proto files.", "DESIGN.md §4 C19"),
+         "Exploration of address forms (IPv4/IPv6 textual variants), ports, metadata, malformed replies; both adapters are built from configuration values through the root crate's wrappers, as passage::start builds them.", "Server stubs generated from the repository's own .proto files.", "DESIGN.md §4 C19, §10.6"),
  "C20": ("mock-k8s", "stateful property-based testing (proptest): generated list/watch histories served by a mock Kubernetes API; oracle = model map name -> last observed object, checked after a sentinel barrier",
          "Exploration of watch histories (ADDED/MODIFIED/DELETED/BOOKMARK, drops, 410 re-lists).", "Sentinel barrier assumes events are applied in order.", "DESIGN.md §4 C20"),
 }
